@@ -2,6 +2,7 @@ package main
 
 import (
 	"fmt"
+	"go/token"
 	"go/types"
 	"sort"
 	"strings"
@@ -534,7 +535,31 @@ func (c *Ctx) rwForwarding(ws []*Wrapper, needHijack, needFlush bool, sel func(*
 				sp := c.rwSpec(w)
 				sp.P = p
 				reach, direct := false, true
+				swallowed := ""
 				for _, t := range sp.Walk(fn) {
+					if !t.Has("emb:"+method) && t.Exit == ExitNormal {
+						// only acceptable when the embedded writer does not implement the interface
+						unsupported := false
+						for _, it := range t.Items {
+							ifi, isIf := it.Instr.(*ssa.If)
+							if !isIf {
+								continue
+							}
+							cond, pol := ifi.Cond, it.Pol
+							if u, isNot := cond.(*ssa.UnOp); isNot && u.Op == token.NOT {
+								cond, pol = u.X, !pol
+							}
+							if ex, isEx := cond.(*ssa.Extract); isEx && ex.Index == 1 && !pol {
+								if _, isTA := ex.Tuple.(*ssa.TypeAssert); isTA {
+									unsupported = true
+								}
+							}
+						}
+						if !unsupported && swallowed == "" && !(method == "Flush" && w.buffersBody()) {
+							// (a wrapper that holds the body back in a buffer has nothing to flush while it does)
+							swallowed = t.String()
+						}
+					}
 					if t.Has("emb:" + method) {
 						reach = true
 						if method == "Hijack" {
@@ -550,14 +575,16 @@ func (c *Ctx) rwForwarding(ws []*Wrapper, needHijack, needFlush bool, sel func(*
 						}
 					}
 				}
-				ok = reach && direct
+				ok = reach && direct && swallowed == ""
 				if !reach {
 					detail = method + " never reaches the embedded writer's " + method
 				} else if !direct {
 					detail = "Hijack does not return the underlying connection as is"
+				} else if swallowed != "" {
+					detail = method + " returns without reaching the embedded writer's " + method + " although that writer supports it (a flush of the response head before the first body byte, an SSE keep-alive, … is swallowed; http.ResponseController prefers this method over Unwrap): " + firstN(swallowed, 300)
 				}
 			}
-			if ok || unwrap {
+			if ok || (unwrap && fn == nil) {
 				c.Pass(rule, w.Key, pos, map[bool]string{true: method + " forwards to the embedded writer", false: "Unwrap exposes the embedded writer to http.ResponseController"}[ok])
 			} else {
 				c.Fail(rule, w.Key, pos, detail)
@@ -809,4 +836,20 @@ func trim(s []string, n int) []string {
 		return append(s[:n:n], fmt.Sprintf("… %d more", len(s)-n))
 	}
 	return s
+}
+
+// buffersBody: the wrapper accumulates the response body in a bytes.Buffer field (a transformer that
+// decides about the whole body, like gzip), as opposed to passing bytes through as they come.
+func (w *Wrapper) buffersBody() bool {
+	st, _ := w.Named.Underlying().(*types.Struct)
+	for i := 0; st != nil && i < st.NumFields(); i++ {
+		t := st.Field(i).Type()
+		if pt, isPtr := t.Underlying().(*types.Pointer); isPtr {
+			t = pt.Elem()
+		}
+		if QualType(namedOf(t)) == "bytes.Buffer" {
+			return true
+		}
+	}
+	return false
 }
